@@ -373,67 +373,287 @@ def corpus_cases():
 
 
 # ---------------------------------------------------------------------------------- names table
+NAMES_FILES = ["single_invoke_three_kernels.f90", "test11_different_iterates_over_one_invoke.f90",
+               "single_invoke.f90", "single_invoke_two_identical_kernels.f90"]
+NAMES_TRANS = ["PSyDataTrans", "ProfileTrans", "ExtractTrans"]
+
+
+def _reset_names_table():
+    """empties the region-name table where the code keeps it on the class (returns the saved table or None)"""
+    from psyclone.psyir.transformations import PSyDataTrans
+    saved = getattr(PSyDataTrans, "_used_kernel_names", None)
+    if saved is not None:
+        PSyDataTrans._used_kernel_names = {}
+    return saved
+
+
+def _restore_names_table(saved):
+    from psyclone.psyir.transformations import PSyDataTrans
+    if saved is not None:
+        PSyDataTrans._used_kernel_names = saved
+
+
+def names_sequence_run(seq, invokes=None):
+    """executes a concrete sequence of `get_unique_region_name` requests against the real code.
+    step = {file, invoke, i, j, trans, region_name, fresh}: nodes = children[i:j] of the schedule of invoke
+    `invoke` of the GOcean test file `file`; `trans` the transformation class; `fresh`: a new transformation
+    object for this request (otherwise one object per class shared by the whole sequence).
+    Returns (generated names, model requests, Ids).  The caller resets/restores the class-level table."""
+    from psyclone.psyGen import Kern
+    from psyclone.tests.utilities import get_invoke
+    invokes = {} if invokes is None else invokes
+    shared, ids, got, reqs = {}, G.Ids(), [], []
+    for st in seq:
+        key = (st["file"], st["invoke"])
+        if key not in invokes:
+            invokes[key] = get_invoke(st["file"], "gocean", idx=st["invoke"], dist_mem=False)[1]
+        inv = invokes[key]
+        nodes = inv.schedule.children[st["i"]:st["j"]]
+        if st["fresh"] or st["trans"] not in shared:
+            trans = trans_of(st["trans"])
+            if not st["fresh"]:
+                shared[st["trans"]] = trans
+        else:
+            trans = shared[st["trans"]]
+        if st.get("region_name"):
+            nm = tuple(st["region_name"])
+            got.append(tuple(trans.get_unique_region_name(nodes, {"region_name": nm})))
+            reqs.append(["u", ids.name(nm[0]), ids.name(nm[1])])
+            continue
+        got.append(tuple(trans.get_unique_region_name(nodes, {})))
+        kerns = [k for n in nodes for k in n.walk(Kern)]
+        base = inv.name + (f":{kerns[0].name}" if len(kerns) == 1 else "")
+        reqs.append(["a", ids.name(inv.invokes.psy.name), ids.name(base)])
+    return got, reqs, ids
+
+
+def names_duplicates(seq, got):
+    auto = [g for g, st in zip(got, seq) if not st.get("region_name")]
+    return sorted({g for g in auto if auto.count(g) > 1})
+
+
 def names_check(chk, stats):
     """`PSyDataTrans.get_unique_region_name` (used by the GOcean/LFRic extraction) on GOcean invokes vs
-    `C28.uniqueNames`; uniqueness of the generated names evaluated directly."""
+    `C28.uniqueNames`; uniqueness of the generated names evaluated directly.  Every sequence is concrete
+    (file, invoke, node range, transformation class, fresh or shared object) and is stored in the witness."""
     from psyclone.configuration import Config
-    from psyclone.psyir.transformations import PSyDataTrans
-    from psyclone.psyGen import Kern
     old_api = Config.get().api
-    saved = getattr(PSyDataTrans, "_used_kernel_names", None)
+    saved = _reset_names_table()
     try:
         from psyclone.tests.utilities import get_invoke
-        invokes = []
-        for f, n in (("single_invoke_three_kernels.f90", 1), ("test11_different_iterates_over_one_invoke.f90", 1),
-                     ("single_invoke.f90", 1)):
+        invokes = {}
+        for f in NAMES_FILES:
             try:
-                for k in range(n):
-                    invokes.append(get_invoke(f, "gocean", idx=k, dist_mem=False)[1])
+                invokes[(f, 0)] = get_invoke(f, "gocean", idx=0, dist_mem=False)[1]
             except Exception:  # pylint: disable=broad-except
                 continue
         if not invokes:
             stats["names_table"] = "skipped: no GOcean test invoke available"
             return None
         rng = chk.rng
+        keys = sorted(invokes)
         for _ in range(60 if chk.tier == "quick" else 400):
-            if saved is not None:
-                PSyDataTrans._used_kernel_names = {}
-            ids = G.Ids()
-            reqs, got = [], []
+            _reset_names_table()
+            seq = []
+            mode = rng.choice(["fresh", "shared", "mixed"])
             for _ in range(rng.randint(2, 9)):
-                inv = rng.choice(invokes)
-                ch = inv.schedule.children
-                i = rng.randrange(len(ch))
-                j = rng.randint(i + 1, len(ch))
-                nodes = ch[i:j]
+                f, k = rng.choice(keys)
+                n = len(invokes[(f, k)].schedule.children)
+                i = rng.randrange(n)
+                j = rng.randint(i + 1, n)
+                fresh = mode == "fresh" or (mode == "mixed" and rng.random() < 0.5)
+                st = {"file": f, "invoke": k, "i": i, "j": j, "trans": rng.choice(NAMES_TRANS),
+                      "region_name": None, "fresh": fresh}
                 if rng.random() < 0.2:
-                    nm = rng.choice([("m", "r"), ("m", "s")])
-                    got.append(tuple(PSyDataTrans().get_unique_region_name(nodes, {"region_name": nm})))
-                    reqs.append(["u", ids.name(nm[0]), ids.name(nm[1])])
-                    continue
-                trans = rng.choice([PSyDataTrans(), trans_of("ProfileTrans"), trans_of("ExtractTrans")])
-                got.append(tuple(trans.get_unique_region_name(nodes, {})))
-                kerns = [k for n in nodes for k in n.walk(Kern)]
-                base = inv.name + (f":{kerns[0].name}" if len(kerns) == 1 else "")
-                reqs.append(["a", ids.name(inv.invokes.psy.name), ids.name(base)])
+                    st["trans"], st["region_name"] = "PSyDataTrans", list(rng.choice([("m", "r"), ("m", "s")]))
+                seq.append(st)
+            got, reqs, ids = names_sequence_run(seq, invokes)
             mo = parse_sx(driver("C28", [sx(["names", reqs])])[0])
             inv_names = {v: k for k, v in ids.names.items()}
             exp = [(inv_names[g[1]], inv_names[g[2]]) if g[0] == "u"
                    else (inv_names[g[1]], f"{inv_names[g[2]]}:r{g[3]}") for g in mo]
             agreed = exp == got
-            chk.case({"names": reqs, "got": got}, nontrivial=True, agreed=agreed)
+            chk.case({"names_sequence": seq, "got": got}, nontrivial=True, agreed=agreed)
             stats["names_sequences"] = stats.get("names_sequences", 0) + 1
-            auto = [g for g, q in zip(got, reqs) if q[0] == "a"]
-            if len(set(auto)) != len(auto):
-                return {"kind": "failing-input", "names_requests": reqs, "observed": got,
-                        "expected": "generated region names pairwise distinct"}
+            stats["names_" + mode] = stats.get("names_" + mode, 0) + 1
+            dups = names_duplicates(seq, got)
+            if dups:
+                return {"kind": "failing-input", "names_sequence": seq, "names_requests": reqs, "observed": got,
+                        "duplicates": dups, "expected": "generated region names pairwise distinct"}
             if not agreed:
-                chk.correspondence_broken("get_unique_region_name differs from C28.uniqueNames", reqs, exp, got)
+                chk.correspondence_broken("get_unique_region_name differs from C28.uniqueNames",
+                                          {"names_sequence": seq}, exp, got)
     finally:
-        if saved is not None:
-            PSyDataTrans._used_kernel_names = saved
+        _restore_names_table(saved)
         Config.get()._api = old_api
     return None
+
+
+def names_replay(seq, quiet=False):
+    """re-executes a stored names-table sequence; True iff two requests without user name got the same name"""
+    from psyclone.configuration import Config
+    say = (lambda *a: None) if quiet else print
+    old_api = Config.get().api
+    saved = _reset_names_table()
+    try:
+        got, _, _ = names_sequence_run(seq)
+    finally:
+        _restore_names_table(saved)
+        Config.get()._api = old_api
+    dups = names_duplicates(seq, got)
+    say("get_unique_region_name requests (GOcean test files; nodes = schedule.children[i:j]):")
+    for st, g in zip(seq, got):
+        say("  ", json.dumps(st), "->", g)
+    say("expected: names of requests without region_name pairwise distinct; duplicates:", dups)
+    return bool(dups)
+
+
+# ---------------------------------------------------------------------------------- end to end, fresh objects
+E2E_FILES = ["single_invoke_two_identical_kernels.f90", "single_invoke_three_kernels.f90",
+             "test12_two_invokes_two_kernels.f90", "single_invoke_two_kernels.f90"]
+E2E_TRANS = ["GOceanExtractTrans", "ProfileTrans"]
+
+
+def e2e_trans(name):
+    if name == "GOceanExtractTrans":
+        from psyclone.domain.gocean.transformations import GOceanExtractTrans
+        return GOceanExtractTrans()
+    return trans_of(name)
+
+
+def e2e_run(w):
+    """w = {file, trans, fresh, steps: [[invoke, i, j]]}: applies the real transformation `trans` to the disjoint
+    top-level ranges children[i:j] of the invokes of a GOcean test file (a new transformation object per region
+    if `fresh`, one object for all otherwise), generates the PSy layer and returns (names in the PreStart calls
+    of the generated text, model requests in text order or None, Ids, number of PostEnd calls)."""
+    import re
+    from psyclone.psyGen import Kern
+    from psyclone.psyir.nodes import PSyDataNode
+    from psyclone.tests.utilities import get_invoke
+    psy, _ = get_invoke(w["file"], "gocean", idx=0, dist_mem=False)
+    shared = e2e_trans(w["trans"])
+    ids, order = G.Ids(), {}
+    with contextlib.redirect_stdout(io.StringIO()), contextlib.redirect_stderr(io.StringIO()):
+        # highest ranges first so that the indices of the remaining ranges stay valid
+        for n, (k, i, j) in enumerate(sorted(w["steps"], key=lambda s: (s[0], -s[1]))):
+            inv = psy.invokes.invoke_list[k]
+            nodes = inv.schedule.children[i:j]
+            before = {id(q) for q in inv.schedule.walk(PSyDataNode)}
+            kerns = [q for nd in nodes for q in nd.walk(Kern)]
+            base = inv.name + (f":{kerns[0].name}" if len(kerns) == 1 else "")
+            (e2e_trans(w["trans"]) if w["fresh"] else shared).apply(nodes)
+            for q in inv.schedule.walk(PSyDataNode):
+                if id(q) not in before:
+                    order[id(q)] = (n, base)
+        reqs = None
+        if w["trans"] == "GOceanExtractTrans":
+            # names come from the table in application order; the text lists them in tree order
+            reqs = []
+            for inv in psy.invokes.invoke_list:
+                for q in inv.schedule.walk(PSyDataNode):
+                    reqs.append((order[id(q)][0], ["a", ids.name(psy.name), ids.name(order[id(q)][1])]))
+        code = str(psy.gen)
+    got = [tuple(re.findall(r'"([^"]*)"', a)[:2]) for a in re.findall(r"PreStart\(([^)]*)\)", code)]
+    nend = len(re.findall(r"%\s*PostEnd\b", code))
+    return got, reqs, ids, nend
+
+
+def e2e_model_names(reqs, ids):
+    """names the model gives to the extraction regions, in text order (requests are made in application order)"""
+    by_time = sorted(range(len(reqs)), key=lambda p: reqs[p][0])
+    mo = parse_sx(driver("C28", [sx(["names", [reqs[p][1] for p in by_time]])])[0])
+    inv_names = {v: k for k, v in ids.names.items()}
+    exp = [None] * len(reqs)
+    for p, g in zip(by_time, mo):
+        exp[p] = (inv_names[g[1]], f"{inv_names[g[2]]}:r{g[3]}")
+    return exp
+
+
+def e2e_check(chk, stats):
+    """end to end: real GOceanExtractTrans / ProfileTrans, a FRESH transformation object per region (and one
+    reused object), on GOcean invokes with repeated kernels; the (module, region) names in the PreStart calls of
+    the generated PSy layer must be pairwise distinct, one PostEnd per PreStart, and (extraction) equal to
+    `C28.uniqueNames` of the requests."""
+    from psyclone.configuration import Config
+    from psyclone.tests.utilities import get_invoke
+    old_api = Config.get().api
+    saved = _reset_names_table()
+    rng = chk.rng
+    try:
+        shapes = {}
+        for f in E2E_FILES:
+            try:
+                psy, _ = get_invoke(f, "gocean", idx=0, dist_mem=False)
+                shapes[f] = [len(inv.schedule.children) for inv in psy.invokes.invoke_list]
+            except Exception:  # pylint: disable=broad-except
+                continue
+        if not shapes:
+            stats["e2e"] = "skipped: no GOcean test file available"
+            return None
+        todo = []
+        # systematic part: every file x transformation x fresh/reused, one region per top-level loop
+        for f in sorted(shapes):
+            for t in E2E_TRANS:
+                for fresh in (True, False):
+                    todo.append({"file": f, "trans": t, "fresh": fresh,
+                                 "steps": [[k, i, i + 1] for k, n in enumerate(shapes[f]) for i in range(n)]})
+        if chk.tier == "quick":
+            todo = [w for w in todo if w["fresh"] or w["file"] == E2E_FILES[0]]
+        for _ in range(4 if chk.tier == "quick" else 30):
+            f = rng.choice(sorted(shapes))
+            steps = []
+            for k, n in enumerate(shapes[f]):
+                i = 0
+                while i < n:
+                    j = rng.randint(i + 1, n)
+                    if rng.random() < 0.8:
+                        steps.append([k, i, j])
+                    i = j
+            if steps:
+                rng.shuffle(steps)
+                todo.append({"file": f, "trans": rng.choice(E2E_TRANS), "fresh": rng.random() < 0.7, "steps": steps})
+        for w in todo:
+            _reset_names_table()
+            try:
+                got, reqs, ids, nend = e2e_run(w)
+            except Exception as err:  # pylint: disable=broad-except
+                stats["e2e_errors"] = stats.get("e2e_errors", 0) + 1
+                stats["e2e_error_sample"] = type(err).__name__ + ": " + str(err)[:120]
+                continue
+            exp = e2e_model_names(reqs, ids) if reqs else None
+            agreed = exp is None or exp == got
+            chk.case({"e2e": w, "got": got}, nontrivial=len(got) > 1, agreed=agreed)
+            stats["e2e_cases"] = stats.get("e2e_cases", 0) + 1
+            stats["e2e_fresh" if w["fresh"] else "e2e_reused"] = stats.get("e2e_fresh" if w["fresh"] else "e2e_reused", 0) + 1
+            if len(set(got)) != len(got) or nend != len(got) or len(got) != len(w["steps"]):
+                return {"kind": "failing-input", "e2e": w, "observed": {"prestart_names": got, "postend_calls": nend},
+                        "expected": f"{len(w['steps'])} PreStart calls with pairwise distinct (module, region) names "
+                                    "and as many PostEnd calls in the generated PSy layer"}
+            if not agreed:
+                chk.correspondence_broken("PreStart names of the generated GOcean PSy layer differ from C28.uniqueNames",
+                                          {"e2e": w}, exp, got)
+    finally:
+        _restore_names_table(saved)
+        Config.get()._api = old_api
+    return None
+
+
+def e2e_replay(w, quiet=False):
+    from psyclone.configuration import Config
+    say = (lambda *a: None) if quiet else print
+    old_api = Config.get().api
+    saved = _reset_names_table()
+    try:
+        got, _, _, nend = e2e_run(w)
+    finally:
+        _restore_names_table(saved)
+        Config.get()._api = old_api
+    say("GOcean test file:", w["file"], " transformation:", w["trans"],
+        "(a new object per region)" if w["fresh"] else "(one object reused)")
+    say("regions [invoke, i, j] = schedule.children[i:j]:", w["steps"])
+    say("observed PreStart names in the generated PSy layer:", got, " PostEnd calls:", nend)
+    say("expected: pairwise distinct names, one PostEnd per PreStart, one pair per region")
+    return len(set(got)) != len(got) or nend != len(got) or len(got) != len(w["steps"])
 
 
 # ---------------------------------------------------------------------------------- several routines
@@ -739,6 +959,9 @@ def _run(chk, stats, gf):
     v = names_check(chk, stats)
     if v is not None:
         chk.violation(v)
+    v = e2e_check(chk, stats)
+    if v is not None:
+        chk.violation(v)
     v = gencode_check(chk, stats)
     if v is not None:
         chk.violation(v)
@@ -763,8 +986,12 @@ def replay_witness(payload, quiet=False):
     if "gencode" in payload:
         say("gen_code names witness: re-run `./check C28` (sequence-dependent)")
         return False
+    if "names_sequence" in payload:
+        return names_replay(payload["names_sequence"], quiet)
+    if "e2e" in payload:
+        return e2e_replay(payload["e2e"], quiet)
     if "names_requests" in payload:
-        say("names-table witness: re-run `./check C28` (sequence-dependent)")
+        say("names-table witness without stored sequence (written by an older harness): re-run `./check C28`")
         return False
     case = Case(payload["source"], payload["steps"], "replay")
     ids = {}
